@@ -4,8 +4,6 @@ import (
 	"context"
 	"errors"
 	"time"
-
-	"github.com/cespare/xxhash/v2"
 )
 
 // ---------------------------------------------------------------------------
@@ -120,11 +118,11 @@ func verifC07(kind int, collide bool, ops []int) {
 		}
 	}
 	if kind != 1 {
-		hs := [3]uint64{xxhash.Sum64(st[0].key), xxhash.Sum64(st[1].key), xxhash.Sum64(st[2].key)}
+		hs := [3]uint64{verifHash(st[0].key), verifHash(st[1].key), verifHash(st[2].key)}
 		verifAssume(hs[0]%shards == 5 && hs[1]%shards == 5 && hs[2]%shards == 9)
 		ho := hs[0]
 		if needsKey {
-			ho = xxhash.Sum64(opKey)
+			ho = verifHash(opKey)
 			verifAssume(ho%shards == 5 || ho%shards == 9)
 		}
 		if collide {
@@ -149,7 +147,7 @@ func verifC07(kind int, collide bool, ops []int) {
 	}
 	if collide && kind != 1 {
 		// representation invariant under collisions: one entry per hash slot
-		if xxhash.Sum64(st[0].key) == xxhash.Sum64(st[1].key) {
+		if verifHash(st[0].key) == verifHash(st[1].key) {
 			verifAssume(!(st[0].present && st[1].present))
 		}
 	}
@@ -196,7 +194,7 @@ func verifC07(kind int, collide bool, ops []int) {
 			if collide && kind != 1 {
 				// the new entry takes over the hash slot of a colliding key
 				for j := range st {
-					if j != i && st[j].present && xxhash.Sum64(st[j].key) == xxhash.Sum64(opKey) {
+					if j != i && st[j].present && verifHash(st[j].key) == verifHash(opKey) {
 						st[j].present = false
 					}
 				}
